@@ -1241,20 +1241,21 @@ class Message(ABC):
     ) -> Any:
         """Adjusts values after parsing."""
         if wire_type == WIRE_VARINT:
-            if meta.proto_type in (TYPE_INT32, TYPE_INT64):
-                bits = int(meta.proto_type[3:])
+            if meta.proto_type in (TYPE_INT32, TYPE_INT64, TYPE_ENUM):
+                # Negative values are sent as 64-bit two's complement varints.
+                bits = 64 if meta.proto_type == TYPE_INT64 else 32
                 value = value & ((1 << bits) - 1)
                 signbit = 1 << (bits - 1)
                 value = int((value ^ signbit) - signbit)
+                if meta.proto_type == TYPE_ENUM:
+                    # Convert enum ints to python enum instances
+                    value = self._betterproto.cls_by_field[field_name].try_value(value)
             elif meta.proto_type in (TYPE_SINT32, TYPE_SINT64):
                 # Undo zig-zag encoding
                 value = (value >> 1) ^ (-(value & 1))
             elif meta.proto_type == TYPE_BOOL:
                 # Booleans use a varint encoding, so convert it to true/false.
                 value = value > 0
-            elif meta.proto_type == TYPE_ENUM:
-                # Convert enum ints to python enum instances
-                value = self._betterproto.cls_by_field[field_name].try_value(value)
         elif wire_type in (WIRE_FIXED_32, WIRE_FIXED_64):
             fmt = _pack_fmt(meta.proto_type)
             value = struct.unpack(fmt, value)[0]
